@@ -44,6 +44,11 @@ def build_corpus(tier, rng):
             en_v, dis_v = Variant(a, "unit"), Variant(b, "unit", [], [DISABLED])
             vs = [Variant("First", "unit")] + ([en_v, dis_v] if order == 0 else [dis_v, en_v]) + [Variant("Last", "unit", [], [ser("l")])]
             items.append(("snake-twin", Item("E", vs)))
+    # a field-less enum may still have (defaulted) const parameters: the table is generic over them
+    for nc in (1, 2):
+        it = Item("E", [Variant("Left", "unit"), Variant("Spare", "unit", [], [DISABLED]), Variant("Middle", "unit"), Variant("Right", "unit", [], [ser("r")])], cparams=nc)
+        it.cparam_default = "3"        # the value the harness instantiates const parameters with
+        items.append(("const-default", it))
     for fam, it in items:
         en = [i for i, v in enumerate(it.variants) if not v.has("disabled")]
         dis = [i for i, v in enumerate(it.variants) if v.has("disabled") and v.kind == "unit"]
